@@ -4,8 +4,9 @@
        compute (validated against Go for years -5000..15000 and for the extreme int64 instants);
      * `gotime`: a Go time.Time as this code sees it = (Unix seconds, nanoseconds, fixed zone
        offset in seconds, zone name);
-     * date.go: msToTime (followed by the .UTC() of FromMillis), timeToMS (with the int64 wrap
-       of Time.UnixNano), parseTimeZone (with strconv.Atoi);
+     * date.go: msToTime (followed by the .UTC() of FromMillis), timeToMS (as repaired in /repo
+       commit 321eb7c: t.Unix()*1000 + t.Nanosecond()/1e6 in int64 arithmetic; the pre-repair
+       t.UnixNano()/1e6 survives as [unix_nano]), parseTimeZone (with strconv.Atoi);
      * Go's time.Parse (time/format.go of go1.23: nextStdChunk, skip, getnum, getnum3, atoi,
        lookup, parseTimeZone, parseGMT, parseSignedOffset, parseNanoseconds, leadingInt and
        the `parse` loop) — EVERY layout element is modelled, so no layout is "unsupported".
@@ -122,7 +123,7 @@ Definition time_in (t : gotime) (off : Z) (name : string) : gotime :=
 
 (* Time.UnixNano() is int64 arithmetic: wraps outside 1677-09-21 .. 2262-04-11 *)
 Definition unix_nano (t : gotime) : Z := wrap64 (unix_sec t * 1000000000 + nsec t).
-(* date.go: timeToMS(t) = t.UnixNano() / int64(time.Millisecond), truncated division *)
+(* date.go: timeToMS(t); before the repair it was t.UnixNano() / int64(time.Millisecond) *)
 (* repaired in /repo: t.Unix()*1000 + int64(t.Nanosecond())/1e6, no nanosecond overflow
    (0 <= nsec < 10^9, so the division is a floor; int64 arithmetic wraps only beyond ±292 million years) *)
 Definition time_to_ms (t : gotime) : Z := wrap64 (wrap64 (unix_sec t * 1000) + nsec t / 1000000).
